@@ -79,7 +79,7 @@ def run(ck):
     exe = ck.impl_driver(buf=4, hbuf=HBUF)
     ck.impl_flags = "-DWENCRY_VERIF -DWENCRY_VERIF_BUF_SZ=4 -DWENCRY_VERIF_HBUF_SZ=%d" % HBUF
     cases = gen_cases(ck)
-    differential(ck, exe, cases, make_oracle(ck))
+    differential(ck, exe, cases, make_oracle(ck), src=True)
     # the 2^32-bit counter: one message of 2^29+3 zero bytes per algorithm through the file entry point
     # (implementation vs hashlib; the model side is covered by theorem C07_counter_is_64_bit)
     for alg, path, n, ref in (big_message_cases(ck, exe) if (ck.tier == "thorough" or not ck.proof_ok) else []):
